@@ -838,7 +838,7 @@ func (d *discharger) dischargeBitfield(s panicSite) (bool, string) {
 			}
 			return false, false
 		})
-		lower := isConstNonNeg(idx) || core.GuardedBy(call.Block(), func(cond ssa.Value) (bool, bool) {
+		lower := isConstNonNeg(idx) || isCounterFromNonNeg(idx) || core.GuardedBy(call.Block(), func(cond ssa.Value) (bool, bool) {
 			v, onT, onF, ok := core.SignTest(cond)
 			if !ok || core.Unconv(v) != idx {
 				return false, false
@@ -1814,4 +1814,29 @@ func (c *Ctx) isFanoutValidator(h *ssa.Function) bool {
 		}
 	}
 	return n > 0
+}
+
+// isCounterFromNonNeg: v is a loop counter phi(c, v+k) with constants c >= 0 and k >= 0: it is never negative (overflow
+// is not modelled, see DESIGN §10.4).
+func isCounterFromNonNeg(v ssa.Value) bool {
+	phi, ok := core.Unconv(v).(*ssa.Phi)
+	if !ok {
+		return false
+	}
+	for _, e := range phi.Edges {
+		if k, isK := core.ConstInt(e); isK {
+			if k < 0 {
+				return false
+			}
+			continue
+		}
+		bo, isBin := e.(*ssa.BinOp)
+		if !isBin || bo.Op != token.ADD || bo.X != ssa.Value(phi) {
+			return false
+		}
+		if k, isK := core.ConstInt(bo.Y); !isK || k < 0 {
+			return false
+		}
+	}
+	return len(phi.Edges) > 0
 }
